@@ -10,9 +10,15 @@ namespace Pylx
 namespace C02
 open Doc
 
-/-- the parsing states of a run on a core document: default fields, the context's specials, a mode -/
-def stdF (keys : List Str) (m : Bool) (md : Option Str) (ee : Bool) : PSFields :=
-  { inMath := m, mathDelim := md, enEnvs := ee, specials := keys }
+/-- group delimiters: `br` = the bracket pair of an optional argument has been added -/
+def brPairs : Bool → Pairs
+  | false => [(['{'], ['}'])]
+  | true => [(['{'], ['}']), (['['], [']'])]
+
+/-- the parsing states of a run on a core document: default fields, the context's specials, a mode; `br` = inside
+    the bracket group of an optional argument -/
+def stdF (keys : List Str) (m : Bool) (md : Option Str) (ee : Bool) (br : Bool := false) : PSFields :=
+  { inMath := m, mathDelim := md, enEnvs := ee, specials := keys, groupDelims := brPairs br }
 
 /-- `set_fields` invariant: outside math mode there is no math delimiter -/
 def NormOk (m : Bool) (md : Option Str) : Prop := m = false → md = none
@@ -30,23 +36,23 @@ def stdExpect (m : Bool) (md : Option Str) : Option (Str × Bool) :=
   | none => none
   | some d => lookupLast d stdMathByOpen
 
-theorem mkPS_std (keys : List Str) (m : Bool) (md : Option Str) (ee : Bool) (h : NormOk m md) :
-    mkPS (stdF keys m md ee) =
-      { f := stdF keys m md ee,
-        t := { groupByOpen := [(['{'], ['}'])], groupClose := [['}']], mathStart := stdMathStart,
+theorem mkPS_std (keys : List Str) (m : Bool) (md : Option Str) (ee br : Bool) (h : NormOk m md) :
+    mkPS (stdF keys m md ee br) =
+      { f := stdF keys m md ee br,
+        t := { groupByOpen := brPairs br, groupClose := (brPairs br).map (·.2), mathStart := stdMathStart,
                mathAll := stdMathAll, mathByOpen := stdMathByOpen, expectClose := stdExpect m md } } := by
   cases m with
-  | false => cases (h rfl); rfl
-  | true => rfl
+  | false => cases (h rfl); cases br <;> rfl
+  | true => cases br <;> rfl
 
 
 /-- the facts about a tokenizer state that the token lemmas use -/
-structure PSStd (keys : List Str) (ee' m' : Bool) (ex' : Option (Str × Bool)) (ps : PState) : Prop where
+structure PSStd (keys : List Str) (ee' m' : Bool) (ex' : Option (Str × Bool)) (br : Bool) (ps : PState) : Prop where
   ms : ps.t.mathStart = stdMathStart
   all : ps.t.mathAll = stdMathAll
   byOpen : ps.t.mathByOpen = stdMathByOpen
-  go : ps.t.groupByOpen = [(['{'], ['}'])]
-  gc : ps.t.groupClose = [['}']]
+  go : ps.t.groupByOpen = brPairs br
+  gc : ps.t.groupClose = (brPairs br).map (·.2)
   esc : ps.f.escapeChar = '\\'
   cs : ps.f.commentStart = ['%']
   eg : ps.f.enGroups = true
@@ -63,10 +69,36 @@ structure PSStd (keys : List Str) (ee' m' : Bool) (ex' : Option (Str × Bool)) (
   inMath : ps.f.inMath = m'
   expect : ps.t.expectClose = ex'
 
-theorem psStd_std (keys : List Str) (m : Bool) (md : Option Str) (ee : Bool) (h : NormOk m md) :
-    PSStd keys ee m (stdExpect m md) (mkPS (stdF keys m md ee)) := by
-  rw [mkPS_std _ _ _ _ h]
+theorem psStd_std (keys : List Str) (m : Bool) (md : Option Str) (ee br : Bool) (h : NormOk m md) :
+    PSStd keys ee m (stdExpect m md) br (mkPS (stdF keys m md ee br)) := by
+  rw [mkPS_std _ _ _ _ _ h]
   constructor <;> rfl
+
+/-- the closing delimiter a math-mode state waits for is one of the four closers -/
+theorem stdExpect_cases (m : Bool) (md : Option Str) :
+    stdExpect m md = none ∨ ∃ k : FKind, stdExpect m md = some (k.closer, k.display) := by
+  unfold stdExpect
+  cases m with
+  | false => exact Or.inl rfl
+  | true =>
+    cases md with
+    | none => exact Or.inl rfl
+    | some d =>
+      simp only [Bool.not_true, Bool.false_eq_true, if_false]
+      by_cases h1 : d = ['$']
+      · subst h1; exact Or.inr ⟨.dollar, rfl⟩
+      by_cases h2 : d = ['\\', '(']
+      · subst h2; exact Or.inr ⟨.paren, rfl⟩
+      by_cases h3 : d = ['$', '$']
+      · subst h3; exact Or.inr ⟨.ddollar, rfl⟩
+      by_cases h4 : d = ['\\', '[']
+      · subst h4; exact Or.inr ⟨.brack, rfl⟩
+      refine Or.inl ?_
+      have h1' : ¬ ['$'] = d := fun e => h1 e.symm
+      have h2' : ¬ ['\\', '('] = d := fun e => h2 e.symm
+      have h3' : ¬ ['$', '$'] = d := fun e => h3 e.symm
+      have h4' : ¬ ['\\', '['] = d := fun e => h4 e.symm
+      simp [stdMathByOpen, lookupLast, h1', h2', h3', h4']
 
 /-! ### small string facts -/
 
@@ -136,8 +168,11 @@ theorem textChar_ne {c : Char} (h : isTextChar c = true) :
 
 /-! ### specials -/
 
-theorem specialsStep_none {s : Str} {p : Nat} {c : Char} {rest : Str} (hd : s.drop p = c :: rest) (hc : isTextChar c = true)
-    (k : Str) (hk : headIs isTextChar k = false) : specialsStep s p none k = none := by
+theorem keyFree_of_text {c : Char} (h : isTextChar c = true) : isKeyFree c = true := by
+  unfold isKeyFree; rw [h]; rfl
+
+theorem specialsStep_none {s : Str} {p : Nat} {c : Char} {rest : Str} (hd : s.drop p = c :: rest) (hc : isKeyFree c = true)
+    (k : Str) (hk : headIs isKeyFree k = false) : specialsStep s p none k = none := by
   unfold specialsStep
   rw [startsWithAt_of_drop hd]
   cases k with
@@ -148,8 +183,8 @@ theorem specialsStep_none {s : Str} {p : Nat} {c : Char} {rest : Str} (hd : s.dr
       simp [headIs, hc] at hk
     simp [List.isPrefixOf, this]
 
-theorem testSpecials_alpha {keys : List Str} {s : Str} {p : Nat} {c : Char} {rest : Str} (hk : keysCore keys = true)
-    (hd : s.drop p = c :: rest) (hc : isTextChar c = true) : testSpecials keys s p = none := by
+theorem testSpecials_free {keys : List Str} {s : Str} {p : Nat} {c : Char} {rest : Str} (hk : keysCore keys = true)
+    (hd : s.drop p = c :: rest) (hc : isKeyFree c = true) : testSpecials keys s p = none := by
   unfold testSpecials
   induction keys with
   | nil => rfl
@@ -159,92 +194,7 @@ theorem testSpecials_alpha {keys : List Str} {s : Str} {p : Nat} {c : Char} {res
     rw [List.foldl_cons, specialsStep_none hd hc k hk.1]
     exact ih (by unfold keysCore; exact hk.2)
 
-/-! ### tokens -/
-
-section tokens
-variable {keys : List Str} {ee m : Bool} {ex : Option (Str × Bool)} {ps : PState} {s : Str} {p : Nat}
-
-theorem mathStart_not {c : Char} (h1 : c ≠ '$') (h2 : c ≠ '\\') : stdMathStart.contains c = false := by
-  simp [stdMathStart, h1, h2]
-
-/-- a character that starts neither math, an escape, a comment, a group nor a specials is a `char` token -/
-theorem peekAtChar_plain (hps : PSStd keys ee m ex ps) {c : Char} {rest pre : Str} (hd : s.drop p = c :: rest)
-    (h1 : c ≠ '$') (h2 : c ≠ '\\') (h3 : c ≠ '%') (h4 : c ≠ '{') (h5 : c ≠ '}')
-    (hsp : testSpecials keys s p = none) :
-    peekAtChar ps s p c pre = .tok { kind := .char, arg := [c], pos := p, posEnd := p + 1, pre := pre } := by
-  unfold peekAtChar
-  rw [hps.ms, mathStart_not h1 h2]
-  simp only [Bool.false_and, Bool.false_eq_true, if_false]
-  unfold peekEscape
-  rw [hps.esc]
-  have e1 : (c == '\\') = false := by simp [h2]
-  simp only [e1, Bool.false_eq_true, if_false]
-  unfold peekComment
-  rw [startsWithAt_of_drop hd, hps.cs]
-  have e2 : List.isPrefixOf ['%'] (c :: rest) = false := by simp [List.isPrefixOf, Ne.symm h3]
-  simp only [e2, Bool.and_false, Bool.false_and, Bool.false_eq_true, if_false]
-  unfold peekGroups
-  rw [hps.eg, hps.go, hps.gc]
-  have e3 : (['{'] == [c]) = false := by simp [Ne.symm h4]
-  have e4 : (['}'] == [c]) = false := by simp [Ne.symm h5]
-  simp only [List.any_cons, List.any_nil, Bool.or_false, if_true, e3, e4, Bool.false_eq_true, if_false]
-  unfold peekSpecialsOrChar
-  rw [hps.hc, hps.es, hps.sp]
-  simp only [Bool.and_self, if_true, hsp]
-  unfold charToken
-  rw [hps.fb]
-  simp
-
-/-- a text character is a `char` token -/
-theorem peek_alpha (hps : PSStd keys ee m ex ps) (hk : keysCore keys = true) {c : Char} {rest : Str} (hd : s.drop p = c :: rest)
-    (hc : isTextChar c = true) :
-    peekImpl ps s p = .tok { kind := .char, arg := [c], pos := p, posEnd := p + 1 } := by
-  obtain ⟨h1, h2, h3, h4, h5, h6⟩ := textChar_ne hc
-  rw [peekImpl_at_nonspace (getElem?_of_drop hd) h6]
-  exact peekAtChar_plain hps hd h1 h2 h3 h4 h5 (testSpecials_alpha hk hd hc)
-
-theorem peek_brace (hps : PSStd keys ee m ex ps) {c : Char} {rest : Str} (hd : s.drop p = c :: rest) (hc : c = '{' ∨ c = '}') :
-    peekImpl ps s p = .tok { kind := if c = '{' then .braceOpen else .braceClose, arg := [c], pos := p, posEnd := p + 1 } := by
-  have hsp : isPySpace c = false := by rcases hc with e | e <;> (subst e; decide)
-  rw [peekImpl_at_nonspace (getElem?_of_drop hd) hsp]
-  unfold peekAtChar
-  have e0 : stdMathStart.contains c = false := by rcases hc with e | e <;> (subst e; decide)
-  rw [hps.ms, e0]
-  simp only [Bool.false_and, Bool.false_eq_true, if_false]
-  unfold peekEscape
-  rw [hps.esc]
-  have e1 : (c == '\\') = false := by rcases hc with e | e <;> (subst e; decide)
-  simp only [e1, Bool.false_eq_true, if_false]
-  unfold peekComment
-  rw [startsWithAt_of_drop hd, hps.cs]
-  have e2 : List.isPrefixOf ['%'] (c :: rest) = false := by
-    rcases hc with e | e <;> (subst e; simp [List.isPrefixOf])
-  simp only [e2, Bool.and_false, Bool.false_and, Bool.false_eq_true, if_false]
-  unfold peekGroups
-  rw [hps.eg, hps.go, hps.gc]
-  rcases hc with e | e <;> (subst e; simp)
-
-theorem peek_open (hps : PSStd keys ee m ex ps) {rest : Str} (hd : s.drop p = '{' :: rest) :
-    peekImpl ps s p = .tok { kind := .braceOpen, arg := ['{'], pos := p, posEnd := p + 1 } := by
-  rw [peek_brace hps hd (Or.inl rfl)]; rfl
-
-theorem peek_close (hps : PSStd keys ee m ex ps) {rest : Str} (hd : s.drop p = '}' :: rest) :
-    peekImpl ps s p = .tok { kind := .braceClose, arg := ['}'], pos := p, posEnd := p + 1 } := by
-  rw [peek_brace hps hd (Or.inr rfl)]; rfl
-
-theorem peek_eos (ps : PState) (hd : s.drop p = []) : peekImpl ps s p = .eos [] := by
-  unfold peekImpl spaceRun
-  rw [hd]
-  have : s[p]? = none := by
-    have hl : s.length ≤ p := by
-      have := congrArg List.length hd
-      simp at this; omega
-    exact List.getElem?_eq_none hl
-  simp [countNl, this]
-
-end tokens
-
-/-! ### comments -/
+/-! ### whitespace in front of a token -/
 
 theorem takeWhile_ws {w r : Str} (hw : isWs w = true) (hr : headIs isPySpace r = false) :
     (w ++ r).takeWhile isPySpace = w := by
@@ -258,9 +208,156 @@ theorem takeWhile_ws {w r : Str} (hw : isWs w = true) (hr : headIs isPySpace r =
     simp only [List.cons_append, List.takeWhile, hw.1]
     rw [ih (by unfold isWs; exact hw.2)]
 
+theorem dropWhile_ws {w r : Str} (hw : isWs w = true) (hr : headIs isPySpace r = false) :
+    (w ++ r).dropWhile isPySpace = r := by
+  induction w with
+  | nil =>
+    cases r with
+    | nil => rfl
+    | cons c r => simp only [headIs] at hr; simp [hr]
+  | cons c w ih =>
+    simp only [isWs, List.all_cons, Bool.and_eq_true] at hw
+    simp only [List.cons_append, List.dropWhile, hw.1]
+    rw [ih (by unfold isWs; exact hw.2)]
+
 theorem spaceRun_of_drop {s : Str} {q : Nat} {w r : Str} (hd : s.drop q = w ++ r) (hw : isWs w = true)
     (hr : headIs isPySpace r = false) : spaceRun s q = w := by
   unfold spaceRun; rw [hd]; exact takeWhile_ws hw hr
+
+/-- leading whitespace with fewer than two newlines becomes the `pre` of the token read behind it -/
+theorem peekImpl_ws {ps : PState} {s : Str} {p : Nat} {w : Str} {c : Char} {rest : Str} (hd : s.drop p = w ++ c :: rest)
+    (hw : isWs w = true) (hnl : countNl w < 2) (hc : isPySpace c = false) :
+    peekImpl ps s p = peekAtChar ps s (p + w.length) c w := by
+  have hsr : spaceRun s p = w := spaceRun_of_drop hd hw (by simp [headIs, hc])
+  unfold peekImpl
+  dsimp only
+  rw [hsr]
+  have h1 : (ps.f.enDblNl && decide (countNl w ≥ 2)) = false := by
+    have : decide (countNl w ≥ 2) = false := by simp; omega
+    rw [this, Bool.and_false]
+  rw [h1]
+  simp only [Bool.false_eq_true, if_false]
+  rw [getElem?_of_drop (drop_add_of_drop hd)]
+
+/-- whitespace up to the end of the input -/
+theorem peekImpl_ws_eos {ps : PState} {s : Str} {p : Nat} {w : Str} (hd : s.drop p = w)
+    (hw : isWs w = true) (hnl : countNl w < 2) : peekImpl ps s p = .eos w := by
+  have hsr : spaceRun s p = w := spaceRun_of_drop (r := []) (by rw [hd, List.append_nil]) hw rfl
+  unfold peekImpl
+  dsimp only
+  rw [hsr]
+  have h1 : (ps.f.enDblNl && decide (countNl w ≥ 2)) = false := by
+    have : decide (countNl w ≥ 2) = false := by simp; omega
+    rw [this, Bool.and_false]
+  rw [h1]
+  simp only [Bool.false_eq_true, if_false]
+  have : s[p + w.length]? = none := by
+    have hl : s.length ≤ p + w.length := by
+      have := congrArg List.length hd
+      simp at this; omega
+    exact List.getElem?_eq_none hl
+  rw [this]
+
+/-! ### tokens -/
+
+section tokens
+variable {keys : List Str} {ee m br : Bool} {ex : Option (Str × Bool)} {ps : PState} {s : Str} {p : Nat}
+
+theorem mathStart_not {c : Char} (h1 : c ≠ '$') (h2 : c ≠ '\\') : stdMathStart.contains c = false := by
+  simp [stdMathStart, h1, h2]
+
+/-- the tokenizer gets to the group-delimiter test -/
+theorem peekAtChar_toGroups (hps : PSStd keys ee m ex br ps) {c : Char} {rest pre : Str} (hd : s.drop p = c :: rest)
+    (h1 : c ≠ '$') (h2 : c ≠ '\\') (h3 : c ≠ '%') :
+    peekAtChar ps s p c pre = peekGroups ps s p c pre := by
+  unfold peekAtChar
+  rw [hps.ms, mathStart_not h1 h2]
+  simp only [Bool.false_and, Bool.false_eq_true, if_false]
+  unfold peekEscape
+  rw [hps.esc]
+  have e1 : (c == '\\') = false := by simp [h2]
+  simp only [e1, Bool.false_eq_true, if_false]
+  unfold peekComment
+  rw [startsWithAt_of_drop hd, hps.cs]
+  have e2 : List.isPrefixOf ['%'] (c :: rest) = false := by simp [List.isPrefixOf, Ne.symm h3]
+  simp only [e2, Bool.and_false, Bool.false_and, Bool.false_eq_true, if_false]
+
+/-- a character that starts neither math, an escape, a comment, a group nor a specials is a `char` token -/
+theorem peekAtChar_plain (hps : PSStd keys ee m ex br ps) {c : Char} {rest pre : Str} (hd : s.drop p = c :: rest)
+    (h1 : c ≠ '$') (h2 : c ≠ '\\') (h3 : c ≠ '%') (h4 : c ≠ '{') (h5 : c ≠ '}') (h6 : br = true → c ≠ '[' ∧ c ≠ ']')
+    (hsp : testSpecials keys s p = none) :
+    peekAtChar ps s p c pre = .tok { kind := .char, arg := [c], pos := p, posEnd := p + 1, pre := pre } := by
+  rw [peekAtChar_toGroups hps hd h1 h2 h3]
+  unfold peekGroups
+  rw [hps.eg, hps.go, hps.gc]
+  have e3 : (['{'] == [c]) = false := by simp [Ne.symm h4]
+  have e4 : (['}'] == [c]) = false := by simp [Ne.symm h5]
+  have e5 : (brPairs br).any (fun d => d.1 == [c]) = false := by
+    cases br with
+    | false => simp [brPairs, Ne.symm h4]
+    | true => simp [brPairs, Ne.symm h4, Ne.symm (h6 rfl).1]
+  have e6 : ((brPairs br).map (·.2)).any (fun d => d == [c]) = false := by
+    cases br with
+    | false => simp [brPairs, Ne.symm h5]
+    | true => simp [brPairs, Ne.symm h5, Ne.symm (h6 rfl).2]
+  simp only [e5, e6, if_true, Bool.false_eq_true, if_false]
+  unfold peekSpecialsOrChar
+  rw [hps.hc, hps.es, hps.sp]
+  simp only [Bool.and_self, if_true, hsp]
+  unfold charToken
+  rw [hps.fb]
+  simp
+
+/-- a text character is a `char` token -/
+theorem peekAtChar_text (hps : PSStd keys ee m ex br ps) (hk : keysCore keys = true) {c : Char} {rest pre : Str}
+    (hd : s.drop p = c :: rest) (hc : isTextChar c = true) :
+    peekAtChar ps s p c pre = .tok { kind := .char, arg := [c], pos := p, posEnd := p + 1, pre := pre } := by
+  obtain ⟨h1, h2, h3, h4, h5, _⟩ := textChar_ne hc
+  refine peekAtChar_plain hps hd h1 h2 h3 h4 h5 (fun _ => ⟨?_, ?_⟩) (testSpecials_free hk hd (keyFree_of_text hc))
+  · intro e; subst e; revert hc; decide
+  · intro e; subst e; revert hc; decide
+
+/-- `*` is a `char` token -/
+theorem peekAtChar_star (hps : PSStd keys ee m ex br ps) (hk : keysCore keys = true) {rest pre : Str}
+    (hd : s.drop p = '*' :: rest) :
+    peekAtChar ps s p '*' pre = .tok { kind := .char, arg := ['*'], pos := p, posEnd := p + 1, pre := pre } :=
+  peekAtChar_plain hps hd (by decide) (by decide) (by decide) (by decide) (by decide) (fun _ => ⟨by decide, by decide⟩)
+    (testSpecials_free hk hd (by decide))
+
+theorem peekAtChar_open (hps : PSStd keys ee m ex br ps) {rest pre : Str} (hd : s.drop p = '{' :: rest) :
+    peekAtChar ps s p '{' pre = .tok { kind := .braceOpen, arg := ['{'], pos := p, posEnd := p + 1, pre := pre } := by
+  rw [peekAtChar_toGroups hps hd (by decide) (by decide) (by decide)]
+  unfold peekGroups
+  rw [hps.eg, hps.go]
+  cases br <;> simp [brPairs]
+
+theorem peekAtChar_close (hps : PSStd keys ee m ex br ps) {rest pre : Str} (hd : s.drop p = '}' :: rest) :
+    peekAtChar ps s p '}' pre = .tok { kind := .braceClose, arg := ['}'], pos := p, posEnd := p + 1, pre := pre } := by
+  rw [peekAtChar_toGroups hps hd (by decide) (by decide) (by decide)]
+  unfold peekGroups
+  rw [hps.eg, hps.go, hps.gc]
+  cases br <;> simp [brPairs]
+
+theorem peekAtChar_bopen (hps : PSStd keys ee m ex true ps) {rest pre : Str} (hd : s.drop p = '[' :: rest) :
+    peekAtChar ps s p '[' pre = .tok { kind := .braceOpen, arg := ['['], pos := p, posEnd := p + 1, pre := pre } := by
+  rw [peekAtChar_toGroups hps hd (by decide) (by decide) (by decide)]
+  unfold peekGroups
+  rw [hps.eg, hps.go]
+  simp [brPairs]
+
+theorem peekAtChar_bclose (hps : PSStd keys ee m ex true ps) {rest pre : Str} (hd : s.drop p = ']' :: rest) :
+    peekAtChar ps s p ']' pre = .tok { kind := .braceClose, arg := [']'], pos := p, posEnd := p + 1, pre := pre } := by
+  rw [peekAtChar_toGroups hps hd (by decide) (by decide) (by decide)]
+  unfold peekGroups
+  rw [hps.eg, hps.go, hps.gc]
+  simp [brPairs]
+
+theorem peek_eos (ps : PState) (hd : s.drop p = []) : peekImpl ps s p = .eos [] :=
+  peekImpl_ws_eos hd rfl (by decide)
+
+end tokens
+
+/-! ### comments -/
 
 theorem findIdx_nl (text r : Str) (h : text.contains '\n' = false) :
     (text ++ '\n' :: r).findIdx? (· == '\n') = some text.length := by
@@ -277,14 +374,20 @@ theorem findIdx_nl (text r : Str) (h : text.contains '\n' = false) :
         subst e; simp at this
     simp only [List.cons_append, List.findIdx?_cons, hc, Bool.false_eq_true, if_false, ih h.2, Option.map_some, List.length_cons]
 
-section comment
-variable {keys : List Str} {ee m : Bool} {ex : Option (Str × Bool)} {ps : PState} {s : Str} {p : Nat}
+theorem postSpaceAt_of_drop {s : Str} {q : Nat} {w r : Str} (hd : s.drop q = w ++ r) (hw : isWs w = true)
+    (hnl : countNl w < 2) (hr : headIs isPySpace r = false) : postSpaceAt s q = w := by
+  unfold postSpaceAt
+  rw [spaceRun_of_drop hd hw hr]
+  simp only
+  rw [if_neg (by omega)]
 
-theorem peek_comment (hps : PSStd keys ee m ex ps) {text ind r : Str}
-    (hd : s.drop p = '%' :: (text ++ '\n' :: (ind ++ r))) (htext : text.contains '\n' = false)
-    (hws : isWs ('\n' :: ind) = true) (hnl : countNl ('\n' :: ind) < 2) (hr : headIs isPySpace r = false) :
-    peekImpl ps s p = .tok ({ kind := .comment, arg := text, pos := p, posEnd := p + 1 + text.length + (1 + ind.length), pre := [], post := '\n' :: ind } : Token) := by
-  rw [peekImpl_at_nonspace (getElem?_of_drop hd) (by decide)]
+section comment
+variable {keys : List Str} {ee m br : Bool} {ex : Option (Str × Bool)} {ps : PState} {s : Str} {p : Nat}
+
+theorem peekAtChar_comment (hps : PSStd keys ee m ex br ps) {text post r pre : Str}
+    (hd : s.drop p = '%' :: (text ++ '\n' :: (post ++ r))) (htext : text.contains '\n' = false)
+    (hws : isWs ('\n' :: post) = true) (hnl : countNl ('\n' :: post) < 2) (hr : headIs isPySpace r = false) :
+    peekAtChar ps s p '%' pre = .tok ({ kind := .comment, arg := text, pos := p, posEnd := p + 1 + text.length + (1 + post.length), pre := pre, post := '\n' :: post } : Token) := by
   unfold peekAtChar
   have e0 : stdMathStart.contains '%' = false := by decide
   rw [hps.ms, e0]
@@ -295,11 +398,11 @@ theorem peek_comment (hps : PSStd keys ee m ex ps) {text ind r : Str}
   simp only [e1, Bool.false_eq_true, if_false]
   unfold peekComment
   rw [startsWithAt_of_drop hd, hps.cs, hps.ec]
-  have e2 : List.isPrefixOf ['%'] ('%' :: (text ++ '\n' :: (ind ++ r))) = true := by simp [List.isPrefixOf]
+  have e2 : List.isPrefixOf ['%'] ('%' :: (text ++ '\n' :: (post ++ r))) = true := by simp [List.isPrefixOf]
   simp only [e2, List.isEmpty_cons, Bool.not_false, Bool.and_self, if_true]
   unfold readComment
   rw [hps.cs]
-  have hd1 : s.drop (p + 1) = text ++ '\n' :: (ind ++ r) := drop_succ_of_drop hd
+  have hd1 : s.drop (p + 1) = text ++ '\n' :: (post ++ r) := drop_succ_of_drop hd
   have hfind : findCharFrom s '\n' (p + [ '%' ].length) = some (p + 1 + text.length) := by
     unfold findCharFrom
     show (match (s.drop (p + 1)).findIdx? (· == '\n') with | some i => some (p + 1 + i) | none => none) = _
@@ -307,15 +410,10 @@ theorem peek_comment (hps : PSStd keys ee m ex ps) {text ind r : Str}
   dsimp only
   rw [hfind]
   dsimp only
-  have hd2 : s.drop (p + 1 + text.length) = ('\n' :: ind) ++ r := by
+  have hd2 : s.drop (p + 1 + text.length) = ('\n' :: post) ++ r := by
     have := drop_add_of_drop hd1
     simpa using this
-  have hpost : postSpaceAt s (p + 1 + text.length) = '\n' :: ind := by
-    unfold postSpaceAt
-    rw [spaceRun_of_drop hd2 hws hr]
-    simp only
-    rw [if_neg (by omega)]
-  rw [hpost]
+  rw [postSpaceAt_of_drop hd2 hws hnl hr]
   have hsl : slice s (p + ['%'].length) (p + 1 + text.length) = text := by
     unfold slice
     show List.take (p + 1 + text.length - (p + 1)) (s.drop (p + 1)) = text
